@@ -21,7 +21,7 @@ PREFIXES = [("p-out", "p"), ("a/b/out", "a/b"), ("mygateway1-out", "mygateway1-i
             ("home/(attic)/[gw]{1}|a.*?^$-out", "home/(attic)/[gw]{1}|a.*?^$-in"),
             # one topic tree for both directions: what the controller publishes comes back on its own subscription
             ("shared", "shared"), ("s/t", "s/t")]
-PAYLOADS = ["", "x", "a;b", ";", "a;b;c", "a/b", "é", "1", "a b", "#", "+"]
+PAYLOADS = ["", "x", "a;b", ";", "a;b;c", "a/b", "é", "1", "a b", "#", "+", "a\u2028b\x1ec", "a\x85b\rc\x0bd"]
 _LOOP: VLoop | None = None
 
 
@@ -209,11 +209,23 @@ class RxScenario:
         self.disc_fired = False
         self.nontrivial = False
         self.consumer = None  # started by the environment event "reader": reads may begin before, between or after arrivals
+        self.read_task = None
+        self.timed_out = False
+        self.timeouts = cfg.get("timeouts", 0)
 
     async def _consume(self):
         for _ in range(self.cfg["reads"]):
             try:
-                r = await self.t.read()
+                while True:
+                    # each read is a wait with a timeout (asyncio.wait_for): when it expires the application reads again
+                    self.read_task = self.loop.create_task(self.t.read())
+                    try:
+                        r = await self.read_task
+                        break
+                    except asyncio.CancelledError:
+                        if not self.timed_out:
+                            raise  # the consumer itself is being cancelled (end of the execution)
+                        self.timed_out = False
                 self.results.append(("ok", r.rstrip("\n")))
             except TransportError as exc:
                 self.results.append(("err", type(exc).__name__))
@@ -234,6 +246,8 @@ class RxScenario:
             evs.append(f"arrive:{self.seq[self.next]}")
         if self.cfg["disconnect"] and not self.disc_fired:
             evs.append("disconnect")
+        if self.timeouts > 0 and self.read_task is not None and not self.read_task.done():
+            evs.append("timeout")
         return evs
 
     def fire(self, label: str) -> None:
@@ -247,6 +261,11 @@ class RxScenario:
             else:
                 topic, payload = ARRIVALS[sym]
                 assert self.fake.deliver(topic, payload)
+        elif label == "timeout":
+            self.timeouts -= 1
+            self.nontrivial = True
+            self.timed_out = True
+            self.read_task.cancel()
         elif label == "reader":
             self.consumer = self.loop.create_task(self._consume())
         elif label == "disconnect":
@@ -283,7 +302,7 @@ class RxScenario:
                     if (w[0] == "ok" and g != w) or (w[0] == "err" and g[0] != "err"):
                         bad("arrival-order", f"read #{i} gave {g}, arrival #{i} was {w}; results {self.results}")
                         break
-                tasks = [t for t in self.loop.tasks() if not t.done() and t is not self.consumer]
+                tasks = [t for t in self.loop.tasks() if not t.done() and t is not self.consumer and t is not self.read_task]
                 if "E" not in self.seq and not tasks:
                     bad("receive-task-died", "no receive task is running although the connection is up (silently deaf)")
             else:
@@ -296,7 +315,7 @@ class RxScenario:
                     bad(f"disconnect-raised:{type(e).__name__}", f"disconnect raised {e!r}")
                 if self.fake.exited != 1 and self.disc.done():
                     bad("client-not-closed", f"the broker client's __aexit__ was called {self.fake.exited} times")
-                left = [t for t in self.loop.tasks() if not t.done() and t is not self.consumer]
+                left = [t for t in self.loop.tasks() if not t.done() and t is not self.consumer and t is not self.read_task]
                 if left:
                     bad("task-left-running", f"{[getattr(t.get_coro(), '__qualname__', '?') for t in left]} still running after disconnect")
             gc.collect()
@@ -324,6 +343,10 @@ def rx_configs(quick: bool) -> list:
         for seq in itertools.product("ABX", repeat=n):
             out.append({"arrivals": list(seq), "reads": n, "disconnect": False})
             out.append({"arrivals": list(seq[:-1]) + ["E"], "reads": n, "disconnect": False})
+    # a read times out (is cancelled) once or twice, at any moment relative to the arrivals, and the application reads again
+    for seq in (["A"], ["A", "B"], ["X", "A"], ["B", "A", "B"]):
+        out.append({"arrivals": seq, "reads": len(seq), "disconnect": False, "timeouts": 1})
+    out.append({"arrivals": ["A", "B"], "reads": 2, "disconnect": False, "timeouts": 2})
     for n in range(0, 3):
         for seq in itertools.product("ABX", repeat=n):
             out.append({"arrivals": list(seq), "reads": 0, "disconnect": True})
@@ -494,7 +517,7 @@ def run(ctx: core.Ctx) -> core.Report:
     cov = {
         "evaluations": n_map + rres["executions"],
         "distinct_nontrivial": sum(1 for p in PAYLOADS if ";" in p or "/" in p) * len(grid) * len(PREFIXES) + rres["nontrivial"],
-        "rule": "mapping: field grid x 4 prefix pairs (with and without '/') x 11 payloads: publish topic/payload/qos at the abstract hook and at the broker client, subscription coverage of every in-topic, echo read-back and decode; reception: every sequence of <= 3/4 arrivals from {message A, message B, binary payload, broker error last} interleaved in every order with the reads of a consumer, and disconnect after every prefix; non-trivial = payload contains ';' or '/', or an arrival/disconnect lands while handles are queued",
+        "rule": "mapping: field grid x 4 prefix pairs (with and without '/') x 11 payloads: publish topic/payload/qos at the abstract hook and at the broker client, subscription coverage of every in-topic, echo read-back and decode; reception: every sequence of <= 3/4 arrivals from {message A, message B, binary payload, broker error last} interleaved in every order with the reads of a consumer (in five configurations a waiting read times out once or twice and is repeated), and disconnect after every prefix; non-trivial = payload contains ';' or '/', or an arrival/disconnect lands while handles are queued",
         "exhaustive": True,
         "bounds": {"field_combinations": len(grid), "prefix_pairs": len(PREFIXES), "payloads": len(PAYLOADS), "rx_configs": len(cfgs), "rx_executions": rres["executions"]},
         "samples": [{"fields": list(grid[ctx.seed % len(grid)]), "payload": "a;b", "prefix": PREFIXES[1]}, rres["sample"]],
